@@ -32,6 +32,10 @@ Import ListNotations.
     It is used only by Corr.v (which semantics the implementation is compared with). *)
 Definition code_variant : bool := false.
 
+(** SECOND SWITCH, only if the S7 patch (RemoveDiffDisk refuses the base snapshot) is committed: set to
+    [true].  Used by [remove] (the raw removedisk action); the deletion flow never reaches that test. *)
+Definition s7_guard : bool := false.
+
 Notation blockdata := (list N) (only parsing).
 Definition file := nat -> option blockdata.
 Definition fempty : file := fun _ => None.
@@ -359,12 +363,16 @@ Definition remove_index (d : dd) (i : nat) : dd :=
        (fun b => if i <=? loc d b then loc d b - 1 else loc d b)
        (nblk d) (punch d).
 
-Definition remove (d : dd) (name : N) : dd * res :=
+(** [g] = true adds the test for the base snapshot that the code does not have (S7) *)
+Definition remove_g (g : bool) (d : dd) (name : N) : dd * res :=
   let i := find_name d name (nf d) in
   if i =? 0 then (d, ROk)                         (* removeDiskNode: "Disk doesn't exist in list" *)
   else if i =? nf d then (d, RErr)                (* head *)
   else if S i =? nf d then (d, RErr)              (* latest snapshot *)
-  else (remove_index d i, ROk).                   (* NB: no test for the base snapshot (S7) *)
+  else if g && (i =? 1) then (d, RErr)            (* base snapshot: NOT in the code as it is *)
+  else (remove_index d i, ROk).
+
+Definition remove := remove_g s7_guard.
 
 (** the cleaner's / sync agent's deletion flow: PrepareRemoveDisk, then the returned actions
     coalesce(disk -> parent) and remove(disk) *)
